@@ -31,7 +31,8 @@ INVARIANTS = ["HeldOK", "Once", "SettledAtReturn", "Deterministic", "DrySubmitsN
               "NoErrorCached", "DryPredicts"]
 
 # deviation switches of Scheduler.tla that describe the code as it is now
-DEVS = "CONSTANT DevRefork = FALSE\nCONSTANT DevDoubleRelease = FALSE\nCONSTANT DevForkAtExec = TRUE\n"
+DEVS = ("CONSTANT DevRefork = FALSE\nCONSTANT DevDoubleRelease = FALSE\nCONSTANT DevForkAtExec = TRUE\n"
+        "CONSTANT DevCseErrorArg = TRUE\n")
 
 RUN = {"k": "run", "mode": "real", "cache": True}
 DRY = {"k": "run", "mode": "dry", "cache": True}
@@ -177,7 +178,7 @@ def model_check(ctx: Ctx, progs: list[dict], dev: bool = True, invariants=None, 
         "{TRUE, FALSE}" if dev == "both" else "{TRUE}" if dev else "{FALSE}", devs or DEVS)
     cfg += "".join(f"INVARIANT {i}\n" for i in inv)
     if hang_report:
-        cfg += "INVARIANT HangReport\nINVARIANT ForkReport\n"
+        cfg += "INVARIANT HangReport\nINVARIANT ForkReport\nINVARIANT CseErrReport\n"
     cfg += "CHECK_DEADLOCK FALSE\n"
     return run_tlc("sched/Scheduler.tla", cfg, ctx.scratch, workers=workers,
                    env={"PROGRAM_FILE": str(f)}, timeout=timeout, heap="8g")
@@ -439,6 +440,8 @@ def suite(ctx: Ctx, on: list[str], n_random_progs: int, n_sim: int, n_random_his
     ctx.add_tlc(mc)
     hung = mc.recs("HUNG")
     forkdev = {r["pi"] for r in mc.recs("FORKDEV")}
+    cseerrdev = {r["pi"] for r in mc.recs("CSEERRDEV")}
+    ctx.note("programs_with_cse_replayed_error_recover_calls_in_model", sorted(cseerrdev))
     ctx.note("programs_with_timing_dependent_fork_keys_in_model", sorted(forkdev))
     ctx.note("model", {"programs": len(progs), "states": mc.distinct, "transitions": mc.generated,
                        "depth": mc.depth, "hung_states_with_deviation": len(hung)})
@@ -565,6 +568,9 @@ def suite(ctx: Ctx, on: list[str], n_random_progs: int, n_sim: int, n_random_his
         if why.startswith("callgraph:") and m["pi"] in forkdev:
             # explained by the as-built deviation DevForkAtExec (TLC reports the program)
             key = "handle-fork-order"
+        elif why.startswith("callgraph:") and m["pi"] in cseerrdev:
+            # explained by the as-built deviation DevCseErrorArg
+            key = "cse-replayed-error-arg-hash"
         ev = traces[i]["evs"][pos - 1] if pos - 1 < len(traces[i]["evs"]) else None
         ctx.violation(
             f"recorded execution rejected by Sched_Contract clause '{why}' at event {pos} "
